@@ -91,7 +91,14 @@ int shim_mutex_lock(void *m)
 	*o = self_id;
 	return 0;
 }
-int shim_mutex_unlock(void *m) { *mowner(m) = -1; return 0; }
+int sched_yield_on_unlock;
+int shim_mutex_unlock(void *m)
+{
+	*mowner(m) = -1;
+	if (sched_yield_on_unlock && self_id >= 0)
+		park(PK_YIELD, NULL, NULL);   /* preemption point right after the critical section */
+	return 0;
+}
 int shim_cond_init(void *c) { (void)c; return 0; }
 int shim_cond_destroy(void *c) { (void)c; return 0; }
 int shim_cond_wait(void *c, void *m)
